@@ -35,6 +35,7 @@ try:
     out['patch_applies'] = rc == 0
     env = dict(os.environ); env['VERIF_REPO'] = wt
     so = tempfile.mkdtemp(prefix='fpdec-verif-refout.')
+    env['VERIF_SCRATCH_TARGET'] = os.path.join(so, 't')
     env['VERIF_EVIDENCE_DIR'] = os.path.join(so, 'e'); env['VERIF_REPLAY_DIR'] = os.path.join(so, 'r')
     for p in props:
         rc, o = sh([os.path.join(VERIF, 'bin', 'check'), p], cwd=VERIF, env=env)
@@ -45,4 +46,8 @@ finally:
         fcntl.flock(lk, fcntl.LOCK_EX)
         sh(['git', '-C', '/repo', 'worktree', 'remove', '--force', wt])
     shutil.rmtree(wt, ignore_errors=True)
+    try:
+        shutil.rmtree(so, ignore_errors=True)
+    except NameError:
+        pass
 print(json.dumps(out, indent=1))
